@@ -23,4 +23,8 @@ if [ "${1:-}" = "race" ]; then RACE="-race"; OUT=bin/verifmc-race; fi
   if [ -z "$RACE" ] && ! go build -overlay "$OV" -o bin/omniwitness github.com/transparency-dev/witness/cmd/omniwitness 2> bin/build.err; then
     echo "BUILD-FAILED:"; cat bin/build.err; exit 2
   fi
+  # ... and the repository's own writer of add-checkpoint bodies (C11).
+  if [ -z "$RACE" ] && ! go build -overlay "$OV" -o bin/feedbastion github.com/transparency-dev/witness/cmd/feedbastion 2> bin/build.err; then
+    echo "BUILD-FAILED:"; cat bin/build.err; exit 2
+  fi
 ) 9> bin/.lock
